@@ -23,7 +23,6 @@ package main
 import (
 	"bytes"
 	"context"
-	"errors"
 	"fmt"
 	"runtime"
 	"strings"
@@ -62,10 +61,10 @@ func c09Parked(fn string) bool {
 }
 
 func c09Poll(cond func() bool) error {
-	deadline := time.Now().Add(30 * time.Second)
+	deadline := time.Now().Add(c09StepTimeout)
 	for !cond() {
 		if time.Now().After(deadline) {
-			return errors.New("lock schedule: a step did not reach its waiting point within 30 s")
+			return c09Stuck("c09lock:poll")
 		}
 		runtime.Gosched()
 		time.Sleep(20 * time.Microsecond) // polling interval only; the condition decides
@@ -218,15 +217,15 @@ func c09RunLock(co *caseOut, in c09LInput, dir string, seq int) error {
 		if err != nil {
 			return err
 		}
-	case <-time.After(30 * time.Second):
-		return errC09Stuck
+	case <-time.After(c09StepTimeout):
+		return c09Stuck("c09lock:select1")
 	}
-	if err := c09Wait(rDone); err != nil { // R's locked region and lower read, flush still in flight
+	if err := c09Wait(rDone, "c09lock:rDone"); err != nil { // R's locked region and lower read, flush still in flight
 		return err
 	}
 	if atGate {
 		g.putGo <- struct{}{}
-		if err := c09Wait(g.putWritten); err != nil {
+		if err := c09Wait(g.putWritten, "c09lock:g.putWritten"); err != nil {
 			return err
 		}
 		g.putGoExit <- struct{}{}
@@ -235,8 +234,8 @@ func c09RunLock(co *caseOut, in c09LInput, dir string, seq int) error {
 			if err != nil {
 				return err
 			}
-		case <-time.After(30 * time.Second):
-			return errC09Stuck
+		case <-time.After(c09StepTimeout):
+			return c09Stuck("c09lock:select2")
 		}
 	}
 	g.putArmed = false
